@@ -1060,7 +1060,10 @@ def run(ctx: vlib.Ctx):
         "two-directional strategies) x random interleavings of class definitions and to_*/from_* calls with dialects from "
         "{None, D1..Dk}; distinct = (history, class, direction, dialect). documents: random dataclass shapes x Config options x "
         "dialects x user strategy maps x 6 formats against the Coq document model; codecs: 6 formats x all 2^6 option settings x "
-        "shapes x values; distinct = (format, option vector, shape, value). merge: random option namespaces / strategy maps.")
+        "shapes x values; distinct = (format, option vector, shape, value). merge: random option namespaces / strategy maps. "
+        "decode side: deserializer choice on random (format, user map, type); named-tuple mode and no_copy_collections exhaustively "
+        "over format x user dialect x Config.dialect x Config, resolution and end-to-end behaviour of the real Encoder and Decoder. "
+        "unions: 2-3 members with random keyword-flag sets (omit_none, by_alias, dialect, context).")
     for target, names, kernels in PROPS:      # one file per theorem family: a broken proof marks only its own family
         ctx.theorems(target, names, kernels=kernels)
     ctx.trusted += [
@@ -1070,7 +1073,11 @@ def run(ctx: vlib.Ctx):
         "DialectMerge.merge_strategies: hand model of the two strategy loops of Dialect.merge; compared with Dialect.merge on every run",
         "DialectDoc: document model = OptProj.to_dict_model (C08) + codec_strategies/choice (hand model of the first-hit strategy lookup "
         "at the default-dialect level); compared with the mapping every real Encoder hands to its format library on every run",
-        "DialectTwin.call_effective / union_forward: hand models of keyword-default forwarding and of the union branch order",
+        "DialectTwin.call_effective / union_forward, DialectUnion.union_forward4: hand models of keyword-default forwarding and of the "
+        "union branch order (try members in order, a branch fails only on an unknown keyword); compared with real unions on every run",
+        "DialectDecode: decode plan = key read (alias or name), deserializer in force (first-hit lookup over codec_strategies), "
+        "named-tuple mode and no_copy_collections at the default-dialect level; compared with the real builder's resolution and with "
+        "the behaviour of the real Encoders/Decoders on every run",
         "tools/kernels/k13*.py: AST extraction (class Dialect attributes, merge key tuple, option read sites, keyword defaults, "
         "unpack flags and flag call sites, codec plans, format dialect tables, cache name templates); K13C's tables are compared "
         "with the running classes on every run",
@@ -1085,6 +1092,8 @@ def run(ctx: vlib.Ctx):
         "C13_same_document_partial: documents are equal as Python mappings when no field is left to a format-native entry "
         "(native_free); at format-native types the formats differ by construction (C13_same_document_full_refuted) and meet only "
         "after the format library renders the value -- that part is decided by the codec sweep (oracle), not by proof",
+        "C13_same_decode_plan_partial: likewise for decoding (native_free_de); at format-native types the decoders differ by "
+        "construction (C13_same_decode_plan_full_refuted: MessagePack takes bytes as they come)",
     ]
     k2_validation(ctx)
     strategy_corr(ctx)
